@@ -18,7 +18,7 @@
 (***************************************************************************)
 EXTENDS Core
 
-CONSTANTS AsIs_D7, Scenarios,
+CONSTANTS AsIs_D7, AsIs_D17, Scenarios,
           GenLen        \* scenario 0: every pair of thread programs of this length over GenAlphabet is explored
 
 VARIABLES st, pc, sec, res, unlockedShared, scen, prog
@@ -47,6 +47,9 @@ Prelude(n) ==
     [] n = 4 -> <<Ev("mock", <<0>>), Ev("seq", <<1>>), Ev("obj", <<1>>),
                   Ev("watch", <<1, 1, 1, 1, 0>>),                        \* monitor first in sequence 1
                   Ev("expect", ExpA(2, 5, 0, <<1, 1>>, 1, 1, 1))>>
+    [] n = 5 -> <<Ev("mock", <<0>>),                                        \* D17: one REQUIRE_CALL on f(int), one on v(int)
+                  Ev("expect", ExpA(1, 2, 0, <<0, 0>>, 1, 1, 0)),
+                  Ev("expect", ExpA(2, 50, 0, <<0, 0>>, 1, 1, 0))>>
 Programs(n) ==
   CASE n = 0 -> prog
     [] n = 1 -> << <<Ev("release", <<1>>)>>,
@@ -58,6 +61,8 @@ Programs(n) ==
                    <<Ev("call", <<0, 1, 0, 0>>)>> >>
     [] n = 4 -> << <<Ev("unwatch", <<1>>)>>,
                    <<Ev("iscompleted", <<1>>), Ev("call", <<0, 1, 1, 1>>)>> >>
+    [] n = 5 -> << <<Ev("dmock", <<0>>)>>,
+                   <<Ev("release", <<2>>), Ev("release", <<1>>)>> >>
 
 allvars == <<st, pc, sec, res, unlockedShared, scen, prog>>
 Threads == 1..Len(Programs(scen))
@@ -68,7 +73,13 @@ FoldPre(s, evs) == IF evs = <<>> THEN s ELSE FoldPre(Step(s, Head(evs)).st, Tail
 \* ---- sections of an operation in the implementation
 \* release / unwatch in the pinned code: section a (locked) unlinks from the mock / reports, section b (UNLOCKED)
 \* unlinks the sequence handles.
-NSec(op) == IF AsIs_D7 /\ op.e \in {"release", "unwatch"} THEN 2 ELSE 1
+\* destruction of a mock object in the code (D17): one critical section per expectation list - the mock functions in reverse
+\* declaration order, for each the active list and then the saturated one.
+NFns == Cardinality(Fns)
+DmF(k) == NFns - ((k - 1) \div 2)
+DmW(k) == (k - 1) % 2
+NSec(op) == IF AsIs_D7 /\ op.e \in {"release", "unwatch"} THEN 2
+            ELSE IF AsIs_D17 /\ op.e = "dmock" THEN 2 * NFns ELSE 1
 Locked(op, k) == ~(AsIs_D7 /\ ((op.e \in {"release", "unwatch"} /\ k = 2) \/ op.e \in {"iscompleted", "elim"}))
 
 ReleaseA(s, x) ==       \* destructor body: report, unlink from the mock; the handles stay in the sequences
@@ -82,11 +93,13 @@ UnwatchB(s, k) == [st |-> [s EXCEPT !.mon[k] = DeadMon, !.pend = [q \in Seqs |->
 
 SecStep(s, op, k) ==
   IF NSec(op) = 1 THEN Step(s, op)
+  ELSE IF op.e = "dmock" THEN DestroyMockListStep(s, op.a[1], DmF(k), DmW(k), IF k = 2 * NFns THEN 1 ELSE 0)
   ELSE IF op.e = "release" THEN (IF k = 1 THEN ReleaseA(s, op.a[1]) ELSE ReleaseB(s, op.a[1]))
   ELSE (IF k = 1 THEN UnwatchA(s, op.a[1]) ELSE UnwatchB(s, op.a[1]))
 
 Proj(o) == [acc |-> o.acc, hd |-> o.hd, q |-> o.q, skip |-> o.skip,
-            reps |-> [i \in 1..Len(o.reps) |-> <<o.reps[i].kind, o.reps[i].sev, o.reps[i].ent>>]]
+            reps |-> {<<o.reps[i].kind, o.reps[i].sev, o.reps[i].ent>> : i \in 1..Len(o.reps)}]
+MergeLast(rs, o) == [rs EXCEPT ![Len(rs)].reps = @ \cup Proj(o).reps]    \* reports of a later section of the same operation
 
 Init ==
   /\ scen \in Scenarios
@@ -104,11 +117,11 @@ Next ==
             r  == SecStep(st, op, sec[t])
         IN  /\ st' = r.st
             /\ unlockedShared' = (unlockedShared \/ ~Locked(op, sec[t]))
+            /\ res' = IF sec[t] = 1 THEN [res EXCEPT ![t] = Append(@, Proj(r.obs))]     \* the op's results come from its first section,
+                       ELSE [res EXCEPT ![t] = MergeLast(@, r.obs)]                  \* reports of later sections are added
             /\ IF sec[t] < NSec(op)
-               THEN /\ sec' = [sec EXCEPT ![t] = @ + 1] /\ pc' = pc
-                    /\ res' = [res EXCEPT ![t] = Append(@, Proj(r.obs))]       \* the op's own results come from its first section
-               ELSE /\ sec' = [sec EXCEPT ![t] = 1] /\ pc' = [pc EXCEPT ![t] = @ + 1]
-                    /\ res' = IF NSec(op) = 1 THEN [res EXCEPT ![t] = Append(@, Proj(r.obs))] ELSE res
+               THEN sec' = [sec EXCEPT ![t] = @ + 1] /\ pc' = pc
+               ELSE sec' = [sec EXCEPT ![t] = 1] /\ pc' = [pc EXCEPT ![t] = @ + 1]
      /\ scen' = scen /\ prog' = prog
 Spec == Init /\ [][Next]_allvars
 
